@@ -98,8 +98,9 @@ func (stdin *Stdin) ReadAll() ([]byte, error) {
 
 read:
 	stdin.mutex.Lock()
-	stdin.bRead = uint64(len(stdin.buffer))
+	stdin.bRead += uint64(len(stdin.buffer))
 	b := stdin.buffer
+	stdin.buffer = make([]byte, 0)
 	stdin.mutex.Unlock()
 	return b, nil
 }
